@@ -1,10 +1,6 @@
 package controller
 
 import (
-	"time"
-
-	"github.com/markusressel/fan2go/internal/configuration"
-	"github.com/markusressel/fan2go/internal/fans"
 	"github.com/markusressel/fan2go/internal/zzv"
 )
 
@@ -14,44 +10,6 @@ import (
 //zzv:outside cobra wiring of `fan reset` / `fan init` (cmd/fan imports the CLI stack; only their two delete calls are modelled); the real bbolt store (C14); U3, the README promise that configured minPwm+maxPwm skip the RPM-curve measurement, is a known finding
 //zzv:stub persistence is an in-memory implementation of the Persistence interface; oklog/run.Group.Run sequentialised; time.Sleep no-op
 //zzv:opts loopbound=2000 maxsteps=20000000
-
-func zzStartEnv(kind int, configuredMap bool) (*zzEnv, *zzMemPersistence) {
-	configuration.CurrentConfig.RpmPollingRate = time.Millisecond
-	configuration.CurrentConfig.RpmRollingWindowSize = 10
-	configuration.CurrentConfig.MaxRpmDiffForSettledFan = 1000000
-	e := zzNewFan(kind, false, true, true, true, 77, 2, 1500)
-	if configuredMap {
-		m := map[int]int{0: 0, 128: 128, 255: 255}
-		switch kind {
-		case zzKindHwmon:
-			e.hw.Config.PwmMap = &m
-		case zzKindFile:
-			e.fan.(*fans.FileFan).Config.PwmMap = &m
-		default:
-			e.fan.(*fans.CmdFan).Config.PwmMap = &m
-		}
-	}
-	mem := &zzMemPersistence{rpm: map[string]map[int]float64{}, pwmMaps: map[string]map[int]int{}}
-	return e, mem
-}
-
-// zzFewWrites: the only PWM writes of a start that goes straight to regulation and is cancelled at
-// once are those of the final restore (one or two today). Anything above this small number is an
-// analysis (the sweep alone is 256 writes, a measurement at least two per distinct value); the bound
-// is deliberately loose so that a change of the restore routine is not reported here.
-const zzFewWrites = 4
-
-func zzStart(e *zzEnv, mem *zzMemPersistence) error {
-	e.curve = &zzCurve{id: "zzcurve", v: 100}
-	// no spy wrapper here: start-up switches on the concrete fan type; PWM writes are counted by the file model
-	c := &DefaultFanController{persistence: mem, fan: e.fan, curve: e.curve, updateRate: time.Millisecond,
-		pwmValuesWithDistinctTarget: []int{}, controlLoop: zzLoop(0)}
-	e.c = c
-	ctx, cancel := zzv.NewContext()
-	cancel()
-	zzv.SetTicks(0)
-	return c.Run(ctx)
-}
 
 func ZZ_C15_U1_StoredDataReused() {
 	kind := zzv.Choice("fanKind", 2) // hwmon / file (cmd fans write through a real command in replays: not counted)
